@@ -150,3 +150,50 @@ Section Mass.
       nra.
   Qed.
 End Mass.
+
+(* ---- EV is sub-additive (with homogeneity: convex): the value of a mixture of (unnormalised)
+   beliefs is at most the sum of the values — the fact behind every point-based upper bound. *)
+Lemma nthq_vadd' : forall v1 v2 s, length v1 = length v2 -> nthq (vadd v1 v2) s == nthq v1 s + nthq v2 s.
+Proof.
+  induction v1 as [|x v1 IH]; intros [|y v2] s Hl; cbn in Hl; try discriminate.
+  - unfold nthq, vadd; destruct s; cbn; lra.
+  - unfold vadd; cbn [combine map fst snd]. fold (vadd v1 v2). destruct s; unfold nthq; cbn [nth]; [lra|]. apply IH; lia.
+Qed.
+
+Lemma tau_step_add : forall m t1 t2 a o, length t1 = length t2 ->
+  veq (tau_step m (vadd t1 t2) a o) (vadd (tau_step m t1 a o) (tau_step m t2 a o)).
+Proof.
+  intros m t1 t2 a o Hl.
+  assert (L : forall t, length (tau_step m t a o) = nS (pm m)) by (intros; unfold tau_step; rewrite map_length, seq_length; reflexivity).
+  apply (veq_pointwise _ _ (nS (pm m))); [apply L| unfold vadd; rewrite map_length, combine_length, !L; lia|].
+  intros s1 Hs1. rewrite nthq_vadd' by (rewrite !L; reflexivity). unfold tau_step. rewrite !nthq_map_seq by exact Hs1.
+  transitivity (nthq (orow m s1 a) o * (qsum (map (fun s => nthq t1 s * nthq (trow (pm m) s a) s1) (seq 0 (nS (pm m)))) +
+                                        qsum (map (fun s => nthq t2 s * nthq (trow (pm m) s a) s1) (seq 0 (nS (pm m)))))); [| ring].
+  apply Qmult_comp; [reflexivity|]. rewrite <- qsum_map_add. apply qsum_map_ext. intros s _.
+  rewrite nthq_vadd' by exact Hl. ring.
+Qed.
+
+Lemma rew_at_add : forall m t1 t2 a, length t1 = length t2 ->
+  rew_at m (vadd t1 t2) a == rew_at m t1 a + rew_at m t2 a.
+Proof.
+  intros. unfold rew_at. rewrite <- qsum_map_add. apply qsum_map_ext. intros s _. rewrite nthq_vadd' by assumption. ring.
+Qed.
+
+Theorem EV_subadditive : forall m n t1 t2, 0 <= gam (pm m) -> length t1 = nS (pm m) -> length t2 = nS (pm m) ->
+  EV m n (vadd t1 t2) <= EV m n t1 + EV m n t2.
+Proof.
+  intros m n; induction n as [|n IH]; intros t1 t2 Hg L1 L2; cbn [EV]; [lra|].
+  assert (L : forall t a o, length (tau_step m t a o) = nS (pm m)) by (intros; unfold tau_step; rewrite map_length, seq_length; reflexivity).
+  destruct (nA (pm m)) as [|k] eqn:EA; [cbn; lra|].
+  apply maxl_le; [cbn; discriminate|]. intros y Hy. apply in_map_iff in Hy. destruct Hy as [a [<- Ha]].
+  rewrite rew_at_add by congruence.
+  assert (Hs : qsum (map (fun o => EV m n (tau_step m (vadd t1 t2) a o)) (seq 0 (nO m))) <=
+               qsum (map (fun o => EV m n (tau_step m t1 a o)) (seq 0 (nO m))) + qsum (map (fun o => EV m n (tau_step m t2 a o)) (seq 0 (nO m)))).
+  { rewrite <- qsum_map_add. apply qsum_map_le. intros o _.
+    rewrite (EV_ext m n _ _ (tau_step_add m t1 t2 a o ltac:(congruence))). apply IH; [exact Hg| apply L| apply L]. }
+  pose proof (maxl_ub (map (fun a => rew_at m t1 a + gam (pm m) * qsum (map (fun o => EV m n (tau_step m t1 a o)) (seq 0 (nO m)))) (seq 0 (S k))) _
+                (in_map (fun a => rew_at m t1 a + gam (pm m) * qsum (map (fun o => EV m n (tau_step m t1 a o)) (seq 0 (nO m)))) _ a Ha)) as U1.
+  pose proof (maxl_ub (map (fun a => rew_at m t2 a + gam (pm m) * qsum (map (fun o => EV m n (tau_step m t2 a o)) (seq 0 (nO m)))) (seq 0 (S k))) _
+                (in_map (fun a => rew_at m t2 a + gam (pm m) * qsum (map (fun o => EV m n (tau_step m t2 a o)) (seq 0 (nO m)))) _ a Ha)) as U2.
+  cbv beta in U1, U2. nra.
+Qed.
